@@ -88,6 +88,9 @@ def gen_case(rng, i, tier):
         if rng.random() < 0.2 and isinstance(ch, dict):
             place(rng, ch, 1)
             labels.add('placed-in-upper')
+        if rng.random() < 0.12 and isinstance(ch, dict) and isinstance(cur, dict) and cur:
+            ch[rng.choice(list(cur.keys()))] = None
+            labels.add('null-in-upper')
         layers.append(ch)
         try:
             cur = model.merge(cur, ch, model.Notes(null_policy=model.null_policies()[0]))
@@ -125,13 +128,24 @@ def check_case(ctx, case):
     layers = case['layers']
     if any(isinstance(l, dict) and '$match' in l for l in layers):
         return res.skip('document-level $match')
-    notes = model.Notes()
+    pols = model.null_policies()
+    notes = model.Notes(null_policy=pols[0])
     try:
         merged = model.fold(layers, notes)
     except model.Reject:
         return res.skip('chain rejected by the merge rules')
     if notes.unspec:
         return res.skip(notes.unspec[0])
+    alt_wants = None
+    if notes.null_used:
+        # a null child over an existing value: every reading of the statement is accepted, nothing else
+        alt_wants = []
+        for pol in pols:
+            try:
+                alt_wants.append(model.skeleton(model.fold(layers, model.Notes(null_policy=pol))))
+            except model.Reject:
+                pass
+        res.labels.add('null-child:any-reading')
     fmts = list(case['fmts'])
     for i, l in enumerate(layers):
         if fmts[i] == 'toml' and not ser.toml_ok(l):
@@ -160,6 +174,15 @@ def check_case(ctx, case):
         ctx.cleanup_case(d)
         return res.violate('skeleton', 'bklr output does not parse: %s' % e, layers=layers, out=r.out.decode('utf-8', 'replace'))
     exp = [] if want is None else [want]
+    if alt_wants is not None:
+        ok_any = any(veq(got, [] if w is None else [w]) for w in alt_wants)
+        if not ok_any:
+            ctx.cleanup_case(d)
+            return res.violate('skeleton', 'bklr output matches no reading of the layered input (null child over an existing value)', layers=layers, fmts=fmts, got=got,
+                               readings=alt_wants)
+        ctx.cleanup_case(d)
+        res.ev('skeleton_agreed')
+        return res
     if not veq(got, exp):
         ctx.cleanup_case(d)
         return res.violate('skeleton', 'bklr output is not the $required skeleton of the layered input', layers=layers, fmts=fmts, merged=merged, expect=exp, got=got)
@@ -174,6 +197,15 @@ def check_case(ctx, case):
             f.write(r.out)
         r2 = cli([ctx.bin('bklr'), '-f', ofmt, 'skel.' + ofmt], cwd=d)
         res.execs += 1
+        if r2.rc == 0 and r2.out == r.out and case.get('i', 0) % 3 == 0:
+            r3 = cli([ctx.bin('bklr'), '-o', 'skel.' + ofmt, 'skel.' + ofmt], cwd=d)
+            res.execs += 1
+            inplace = open(os.path.join(d, 'skel.' + ofmt), 'rb').read() if r3.rc == 0 else None
+            if inplace != r.out:
+                ctx.cleanup_case(d)
+                return res.violate('idempotent', 'bklr -o onto its own input does not reproduce it (rc=%s)' % r3.rc, layers=layers, first=r.out.decode(),
+                                   inplace=(inplace or b'').decode('utf-8', 'replace'), err=r3.err.decode('utf-8', 'replace')[-200:])
+            res.ev('idempotent_in_place')
         if r2.rc != 0 or r2.out != r.out:
             ctx.cleanup_case(d)
             return res.violate('idempotent', 'bklr on its own output changes it', layers=layers, first=r.out.decode(), second=r2.out.decode('utf-8', 'replace'), err=r2.err.decode('utf-8', 'replace')[-200:])
